@@ -89,6 +89,8 @@ structure Ext (s s' : State) : Prop where
   mode : s'.mode = s.mode
   edns : s'.edns = s.edns
   tsig : s'.tsig = s.tsig
+  /-- ghost: the set of recorded label starts only grows -/
+  glab : ∀ g, g ∈ s.gLabels → g ∈ s'.gLabels
 
 theorem Ext.refl (s : State) : Ext s s := by constructor <;> simp
 
@@ -112,6 +114,7 @@ theorem Ext.trans {a b c : State} (h1 : Ext a b) (h2 : Ext b c) : Ext a c := by
   · rw [h2.mode, h1.mode]
   · rw [h2.edns, h1.edns]
   · rw [h2.tsig, h1.tsig]
+  · exact fun g hg => h2.glab g (h1.glab g hg)
 
 /-- `f` is a frame: whatever its outcome, the state it leaves extends the state it started in -/
 def Frame {α} (f : M α) : Prop := ∀ s, Ext s (f s).2
@@ -160,6 +163,7 @@ theorem frame_tryPush (d : List UInt8) : Frame (tryPush d) := by
 
 theorem frame_ghostLabels (p : Nat) (l : List Label) (b : Bool) : Frame (ghostLabels p l b) := by
   intro s; constructor <;> simp [ghostLabels]
+  intro g hg; exact Or.inr (Or.inr hg)
 
 theorem frame_setCtx (c : NameCtx) : Frame (setCtx c) := by
   intro s; constructor <;> simp [setCtx]
@@ -292,6 +296,7 @@ theorem ext_write_above {s s2 : State} (h : Ext s s2) (pos : Nat) (d : List UInt
     · exact h.mode
     · exact h.edns
     · exact h.tsig
+    · exact h.glab
   · exact h
 
 theorem frame_writeRdata (cls ty : Nat) (rd : List UInt8) : Frame (writeRdata cls ty rd) := by
